@@ -21,6 +21,7 @@ import (
 	"strconv"
 	"strings"
 	"time"
+	_ "time/tzdata" // the DST locations must be there on every machine
 
 	"github.com/M2MGateway/go-smpp/pdu"
 )
@@ -654,7 +655,88 @@ func corrC20Time(r *Run) *c20Time {
 	c.receiverHistories(prod[0].s)
 	c.boundaryOffsets()
 	c.locations()
+	c.receiverLocations()
 	return c
+}
+
+// receiverLocations (seeded C20-z2): receiver state that NO earlier From call can produce.  The variable is assigned
+// directly a time.Time in time.UTC, time.Local, a DST location on either side of a switch, a named fixed zone, or the
+// zero Time; then From(s) for valid strings whose offset EQUALS the receiver's current offset (dated in every season, so
+// on both sides of the receiver's DST switches) and for other offsets.  What the variable holds afterwards - instant,
+// offset, String() - must be what a fresh variable holds.  Same for Duration and the octet codecs with receivers built by
+// direct assignment (negative, huge, sub-tenth durations; arbitrary struct contents).
+func (c *c20Time) receiverLocations() {
+	r, rng := c.r, c.r.Rng
+	locs := []*time.Location{time.UTC, time.Local, time.FixedZone("CEST", 7200), time.FixedZone("", 3600), time.FixedZone("-", -5*3600)}
+	for _, name := range []string{"Europe/Berlin", "America/New_York", "Australia/Sydney", "Australia/Lord_Howe", "Asia/Kathmandu", "America/St_Johns"} {
+		if l, err := time.LoadLocation(name); err == nil {
+			locs = append(locs, l)
+		} else {
+			r.Notes = append(r.Notes, "zone database entry missing: "+name)
+		}
+	}
+	months := []int{1, 3, 4, 6, 8, 10, 11, 12}
+	var priors []time.Time
+	for _, loc := range locs {
+		for _, mo := range []int{1, 4, 7, 10, 12} {
+			priors = append(priors, time.Date(2000+rng.Intn(100), time.Month(mo), 1+rng.Intn(28), rng.Intn(24), rng.Intn(60), rng.Intn(60), rng.Intn(10)*1e8, loc))
+		}
+	}
+	priors = append(priors, time.Time{}, time.Now(), time.Now().UTC())
+	for _, prior := range priors {
+		_, off0 := prior.Zone()
+		var strs []string
+		if off0%900 == 0 && off0 >= -48*900 && off0 <= 48*900 { // the receiver's own offset, in every season
+			nn, p := off0/900, byte('+')
+			if nn < 0 {
+				nn, p = -nn, '-'
+			}
+			for _, mo := range months {
+				strs = append(strs, absString(rng.Intn(100), mo, 1+rng.Intn(28), rng.Intn(24), rng.Intn(60), rng.Intn(60), rng.Intn(10), nn, p))
+			}
+		}
+		for k := 0; k < 3; k++ { // other offsets
+			strs = append(strs, absString(rng.Intn(100), 1+rng.Intn(12), 1+rng.Intn(28), rng.Intn(24), rng.Intn(60), rng.Intn(60), rng.Intn(10), 1+rng.Intn(48), "+-"[rng.Intn(2)]))
+		}
+		strs = append(strs, "", "000101000000000")
+		for _, s := range strs {
+			tm := pdu.Time{Time: prior}
+			err := tm.From(s)
+			fresh := opTimeParse(s)
+			_, off := tm.Zone()
+			t1, q1 := tenthsOf(tm.Time), off/900
+			show := fmt.Sprintf("timefrom receiver=%s (%s) then %s (%q)", prior.Format(time.RFC3339Nano), prior.Location(), hexStr(s), s)
+			r.Count(show, true, "timefrom/receiver assigned directly: "+prior.Location().String())
+			valid, _, _ := validAbs(s)
+			switch {
+			case (err == nil) != (fresh.class == "ok"):
+				r.Fail("time/receiver/error-class", "Time.From on a variable that already holds a value returns another error class than on a fresh variable", show, fmt.Sprint(err), fresh.class)
+			case valid && (t1 != fresh.t || q1 != fresh.q || off%900 != 0 || tm.String() != fresh.x.String()):
+				r.Fail("time/receiver/location", "Time.From of a valid string into a variable holding a time in another Location does not store the instant and offset of the string", show,
+					fmt.Sprintf("instant=%d offset=%ds %q (%s)", t1, off, tm.String(), tm.Time.Format(time.RFC3339Nano)),
+					fmt.Sprintf("instant=%d offset=%ds %q", fresh.t, fresh.q*900, fresh.x.String()))
+			case s == "" && (!tm.IsZero() || tm.String() != ""):
+				r.Fail("time/receiver/empty-string", "Time.From(\"\") into a variable that already holds a value does not store the null time", show, tm.String(), "\"\"")
+			}
+			if valid && off0%900 == 0 && prior.Nanosecond()%1e8 == 0 {
+				r.Case(show, fmt.Sprintf("time_from_is %s %s %s %s %s %s", coqZ(tenthsOf(prior)), coqZ(int64(off0/900)), coqHex([]byte(s)), coqBool(err == nil), coqZ(t1), coqZ(int64(q1))))
+			}
+		}
+	}
+	// Duration: receivers no From call produces
+	for _, d0 := range []time.Duration{-time.Hour, 1, 99999999, 1<<62 - 1, -1 << 62, 12345678912345, time.Duration(rng.U64())} {
+		for _, s := range []string{"000000000010000R", "991130235959900R", "", fmt.Sprintf("%02d%02d%02d%02d%02d%02d%d00R", rng.Intn(100), rng.Intn(12), rng.Intn(30), rng.Intn(24), rng.Intn(60), rng.Intn(60), rng.Intn(10))} {
+			du := pdu.Duration{Duration: d0}
+			err := du.From(s)
+			cl, fd, _ := opDurParse(s)
+			show := fmt.Sprintf("durfrom receiver=%d ns then %s (%q)", int64(d0), hexStr(s), s)
+			r.Count(show, true, "durfrom/receiver assigned directly")
+			if (err == nil) != (cl == "ok") || cl == "ok" && (floorDiv(int64(du.Duration), 1e8) != fd || int64(du.Duration)%1e8 != 0) {
+				r.Fail("duration/receiver/valid-string", "Duration.From into a variable assigned directly does not store the value of the string", show,
+					fmt.Sprintf("err=%v %d ns", err, int64(du.Duration)), fmt.Sprintf("%s %d tenths", cl, fd))
+			}
+		}
+	}
 }
 
 // boundaryOffsets (audit C20-D2): every offset nn = 02..47, both signs, at year / month / day boundaries (alternating
@@ -859,6 +941,9 @@ func (c *c20Time) receiverHistories(anyValid string) {
 // "durparse <hex> ...") on the implementation
 func init() {
 	replayTable["C20"] = func(arg string) string {
+		if i := strings.Index(arg, "timefrom receiver="); i >= 0 {
+			return replayTimeFrom(arg[i:])
+		}
 		f := strings.Fields(arg)
 		if len(f) < 2 {
 			return "no op line"
@@ -877,4 +962,32 @@ func init() {
 		}
 		return line + " -> " + obs
 	}
+}
+
+// replayTimeFrom re-runs "timefrom receiver=<RFC3339Nano> (<location>) then <hex> ..." : the receiver is rebuilt in the named
+// location (fixed offset when the name is not in the zone database), then From(string) and the same into a fresh variable.
+func replayTimeFrom(line string) string {
+	var stamp, loc, hx string
+	if _, err := fmt.Sscanf(line, "timefrom receiver=%s (%s then %s", &stamp, &loc, &hx); err != nil {
+		return "cannot parse: " + line
+	}
+	loc = strings.TrimSuffix(loc, ")")
+	hx = strings.Trim(hx, "\"\\ ")
+	x, err := time.Parse(time.RFC3339Nano, stamp)
+	if err != nil {
+		return "cannot parse the receiver's time: " + stamp
+	}
+	switch l, lerr := time.LoadLocation(loc); {
+	case loc == "Local":
+		x = x.In(time.Local)
+	case lerr == nil && loc != "":
+		x = x.In(l)
+	}
+	str := unhexStr(hx)
+	tm := pdu.Time{Time: x}
+	err = tm.From(str)
+	var fresh pdu.Time
+	ferr := fresh.From(str)
+	return fmt.Sprintf("receiver %s (%s); From(%q): err=%v holds %s String()=%q; fresh variable: err=%v holds %s String()=%q",
+		x.Format(time.RFC3339Nano), x.Location(), str, err, tm.Time.Format(time.RFC3339Nano), tm.String(), ferr, fresh.Time.Format(time.RFC3339Nano), fresh.String())
 }
